@@ -450,6 +450,7 @@ func (c *channel) reconnect(maxRetries float64) {
 			vEmit("ReconGiveUp", c.node.ID(), 0, "who", maxRetries)
 			return
 		}
+		vGate("ReconBackoffWait", c.node.ID(), 0, "who", maxRetries)
 		delay := float64(backoffCfg.BaseDelay)
 		max := float64(backoffCfg.MaxDelay)
 		for r := retries; delay < max && r > 0; r-- {
